@@ -22,6 +22,7 @@ class Prover:
         t0 = time.time()
         n = 0
         pre = pre or []
+        witnessed = False
         for p in paths:
             if p.kind in ("panic",) and "panic" not in kinds and kinds != ("*",):
                 continue
@@ -61,9 +62,25 @@ class Prover:
                     self.out.notes.append("%s: cvc5 cross-check unavailable for one query (%s)" % (oid, cr[:80]))
             if r == z3.sat:
                 return "violated", (p, s.model(), time.time() - t0)
+            if not witnessed:
+                # vacuity guard: the path condition together with the assumed pre-state must be satisfiable
+                w = z3.Solver()
+                w.set("timeout", self.timeout_ms)
+                for c in p.pc:
+                    w.add(c)
+                for c in pre:
+                    w.add(c)
+                self.n_queries += 1
+                if w.check() == z3.sat:
+                    witnessed = True
         if n == 0:
             self.out.obligation(oid, self.engine_name, "vacuous", time.time() - t0, witness=False, note="no path carries this obligation")
             self.out.inconc("%s: no explored path carries the obligation (vacuous)" % oid)
+            return "inconclusive", "vacuous"
+        if not witnessed:
+            self.out.obligation(oid, self.engine_name, "vacuous", time.time() - t0, witness=False,
+                                note="no obligation-carrying path is satisfiable together with the assumed pre-state")
+            self.out.inconc("%s: assumptions are unsatisfiable on every path (vacuous)" % oid)
             return "inconclusive", "vacuous"
         if expect_paths is not None and n < expect_paths:
             self.out.obligation(oid, self.engine_name, "vacuous", time.time() - t0, witness=False,
